@@ -138,6 +138,8 @@ class Port:
     """refers back to the shape whose `ports` (declared on the alternatively mapped base) hold it"""
     uid: int = 0
     shape: Optional[ShapeBase] = None
+    stamp: Optional[Stamp] = None
+    """back to the (frozen) stamp whose marks hold the port: a cycle through an object that cannot be assigned to"""
 
 
 @dataclass(eq=False)
